@@ -163,6 +163,15 @@ def build_part(pid, part, race=False):
     log("built %s/%s in %.1fs" % (pid, part["name"], time.time() - t0))
     return binp, bdir
 
+def mem_budget_mb(workers):
+    """Heap budget per worker: half of the machine's memory divided by the number of workers (engines stop with a
+    cap when they exceed it; the hard `ulimit -v` stays far above)."""
+    try:
+        total_kb = int(re.search(r"MemTotal:\s+(\d+)", open("/proc/meminfo").read()).group(1))
+    except Exception:
+        total_kb = 16 * 1024 * 1024
+    return max(512, int(total_kb / 1024 * 0.5 / max(1, workers)))
+
 def run_part(pid, part, tier, binp, bdir, replay=None, seed=1):
     shards = part.get("shards_" + tier, part.get("shards", 1))
     deadline = part.get("deadline_" + tier, 150 if tier == "quick" else 1500)
@@ -178,6 +187,7 @@ def run_part(pid, part, tier, binp, bdir, replay=None, seed=1):
                     "VERIF_DEADLINE_S": str(deadline), "VERIF_DIR": VERIF, "VERIF_REPO": REPO})
         if part.get("gomaxprocs"):
             env["GOMAXPROCS"] = str(part["gomaxprocs"])
+        env["VERIF_MEM_MB"] = str(mem_budget_mb(shards))
         if replay:
             env["VERIF_REPLAY"] = replay
         if part.get("instrument"):
